@@ -26,7 +26,13 @@ of faults:
 * `entry_points_recover`: `(*Recomposer).Recompose` and `NewRecomposer` carry the deferred recover that
   turns a panic into the error result (regenerated from the source);
 * `any_composer_guarded_in_source`: since /repo fd0bfc5 `registerAnyComposer` has the type test of
-  `registerComposer` (finding `C06rec-any-composer-unguarded`, fixed; fails on the source before).
+  `registerComposer` (finding `C06rec-any-composer-unguarded`, fixed; fails on the source before);
+* `selfcontaining_container_guarded_in_source`: since /repo 041b92d the unwrap loop of the field walk of
+  `registerComposer` stops at a NAMED container type met a second time (finding
+  `C06-recompose-selfcontaining-container`, fixed: `type Tree map[string]Tree` as a field type made
+  registration spin for ever). Such types are not values of the model's `GoType` (a finite tree): that
+  the walk ends is decided by the RUN (a stream of such types under the watchdog), the theorem only
+  pins the source fact.
 
 The model is total by construction (Lean functions, fuel-bounded): every model run ends in a value, a
 `panic` (a Go panic, recovered by `Recompose` into its error) or `outside`; it does not tell an error
@@ -80,6 +86,15 @@ filed under the name was made for this very type, like `registerComposer` since 
 theorem any_composer_guarded_in_source :
     Gen.Reflect.altRegisterAnyNewCond = "c == nil || c.rtype != rt" ∧
     Gen.Reflect.altRegisterAnyNewCond = Gen.Reflect.altRegisterNewCond := by
+  decide +kernel
+
+/-- the source as it is (since /repo 041b92d): inside the labelled unwrap loop of `registerComposer`, before
+`ft = ft.Elem()`, an `if ft.Name() != ""` ranges over the list of named container types met so far,
+leaves the loop on a hit and appends the type otherwise (`C06-recompose-selfcontaining-container`,
+fixed). On the source before 041b92d the regenerated fact is `false` and this theorem fails (there the
+loop followed `Elem()` of `type Tree map[string]Tree` for ever). -/
+theorem selfcontaining_container_guarded_in_source :
+    Gen.Reflect.altRegisterWalkSeenGuard = true ∧ Gen.Reflect.altRegisterWalkUnwrapsAll = true := by
   decide +kernel
 
 end OjgVerif.C06rec
